@@ -92,6 +92,15 @@ inline void Sweep::exprs_unary()
       add_node("make_phantom()", n, Category_code::Phantom, [n](Ck& c) { c.type_opt(*n, {}, "untyped phantom"); }); }
    {  auto& t = P.T(); auto* n = lex.make_phantom(t);
       add_node("make_phantom(type)", n, Category_code::Phantom, [n, tp = &t](Ck& c) { c.type_is(*n, *tp, "given"); }); }
+   // the same generative request twice in a row, right after the client gave its own untyped phantom that very type: three
+   // different nodes; the client then re-types its own node, the two typed ones keep the type they were given
+   {  auto& t = P.T(); const Type* u = &P.T(); for (int k = 0; k < 8 && u == &t; ++k) u = &P.T();
+      auto* own = lex.make_phantom(); own->typing = &t;
+      auto* n1 = lex.make_phantom(t); auto* n2 = lex.make_phantom(t);
+      own->typing = u;
+      add_node("make_phantom() typed and re-typed by the client", own, Category_code::Phantom, [own, u](Ck& c) { c.type_is(*own, *u, "given"); });
+      add_node("make_phantom(type) right after a client phantom of that type", n1, Category_code::Phantom, [n1, own, tp = &t](Ck& c) { c.type_is(*n1, *tp, "given"); c.yes("identity", static_cast<const void*>(n1) != static_cast<const void*>(own), "a typed phantom is the client's own phantom", A_IDENTITY); });
+      add_node("make_phantom(type) twice in a row", n2, Category_code::Phantom, [n1, n2, tp = &t](Ck& c) { c.type_is(*n2, *tp, "given"); c.yes("identity", n1 != n2, "two consecutive typed phantoms are one node", A_IDENTITY); }); }
    {  auto& t = P.T(); auto* n = lex.make_eclipsis(t);
       add_node("make_eclipsis", n, Category_code::Eclipsis, [n, tp = &t](Ck& c) { c.type_is(*n, *tp, "given"); }); }
 }
